@@ -27,7 +27,10 @@ ORIGINS = [("http", "a.example", None), ("http", "a.example", 8080), ("https", "
 # IP-literal hosts (the authority needs brackets for IPv6) - explored with the first/last credentials and header choices
 IP_ORIGINS = [("http", "[::1]", 8080), ("http", "[::1]", None), ("https", "[::1]", None), ("https", "[2001:db8::2]", 8443), ("https", "127.0.0.1", None)]
 # request extensions that address the ORIGIN exchange and must not redirect a proxy hop
-EXTS = [None, {"sni_hostname": "sni.example"}, {"target": b"/t/alt?y=2"}]
+# "@resend": not an extension but a history - the caller's Request object has been sent once before (through another pool with the
+# same proxy configuration, to peers of its own); what the proxy hop sees of the second transmission is judged as usual
+EXTS = [None, {"sni_hostname": "sni.example"}, {"target": b"/t/alt?y=2"}, {"@resend": True}]
+PRE_HOST = "preproxy.example"
 BODIES = [None, b"caller-body"]
 CONNECT_REPLIES = [("interim+200", 200, True), ("200", 200, False), ("204", 204, False), ("299", 299, False), ("300", 300, False),
                    ("302", 302, False), ("403", 403, False), ("407", 407, False), ("500", 500, False), ("502", 502, False),
@@ -86,6 +89,7 @@ def run_case(case, variant):
     variant = variant.split("-")[0]
     kind, cred, ph, origin, rh, body, reply = case[:7]
     ext = dict(EXTS[case[7]]) if len(case) > 7 else {}
+    resend = bool(ext.pop("@resend", False))
     scheme, host, port = origin
     eff_port = port or DEFAULT[scheme]
     bare = host[1:-1] if host.startswith("[") else host      # the host without IPv6 brackets
@@ -112,7 +116,21 @@ def run_case(case, variant):
         socks = Socks5Proxy(inner, method_reply=bytes.fromhex(mr), auth_reply=bytes.fromhex(ar), connect_reply=SOCKS_REPLY[cr])
         purl = f"{kind}://{scen.SOCKS_HOST}:{scen.SOCKS_PORT}"
 
+    pre_origin = {}
+
+    def pre_inner(k, h, p):
+        o = pre_origin.get((h, p))
+        if o is None:
+            o = pre_origin[(h, p)] = H1Server(make_echo_responder("cl"), alpn="http/1.1")
+        return o.new_conn()
+    pre_peer = None
+    if resend:
+        pre_peer = HTTPProxy(pre_inner, forward_server=H1Server(make_echo_responder("cl"), name="prefwd")) if kind in ("http", "https") else Socks5Proxy(
+            pre_inner, method_reply=b"\x05\x02" if cred else b"\x05\x00")
+
     def router(k, h, p):
+        if pre_peer is not None and h == PRE_HOST:
+            return pre_peer.new_conn()
         if proxy is not None and (h, p) == (scen.PROXY_HOST, scen.PROXY_PORT):
             return proxy.new_conn()
         if socks is not None and (h, p) == (scen.SOCKS_HOST, scen.SOCKS_PORT):
@@ -136,10 +154,40 @@ def run_case(case, variant):
     url = f"{scheme}://{host}" + (f":{port}" if port else "") + "/t/tok?x=1"
     result = []
     method = "POST" if body is not None else "GET"
+    pre_pool = None
+    if resend:
+        ppurl = f"{kind}://{PRE_HOST}:{scen.PROXY_PORT if kind in ('http', 'https') else scen.SOCKS_PORT}"
+        pre_pool = cls(ssl_context=sim.RecordingSSLContext("origin"), network_backend=w.backend,
+                       proxy=httpcore.Proxy(ppurl, auth=cred, headers=ph if kind in ("http", "https") else None,
+                                            ssl_context=sim.RecordingSSLContext("proxy") if kind == "https" else None))
+    captured = []      # the Request object that pool.request() built for the first transmission
+    if resend and variant == "sync":
+        _orig = pre_pool.handle_request
+
+        def _cap(request):
+            captured.append(request)
+            return _orig(request)
+        pre_pool.handle_request = _cap
+    elif resend:
+        _aorig = pre_pool.handle_async_request
+
+        async def _acap(request):
+            captured.append(request)
+            return await _aorig(request)
+        pre_pool.handle_async_request = _acap
     if variant == "sync":
         def prog():
             try:
-                r = pool.request(method, url, headers=list(req_headers), content=body, extensions=dict(ext))
+                if resend:
+                    pre_pool.request(method, url, headers=list(req_headers), content=body, extensions=dict(ext))
+                    pre_pool.close()
+                    r = pool.handle_request(captured[0])
+                    try:
+                        r.read()
+                    finally:
+                        r.close()
+                else:
+                    r = pool.request(method, url, headers=list(req_headers), content=body, extensions=dict(ext))
                 result.append(("ok", r.status, r.content))
             except Exception as e:
                 result.append(("exc", e))
@@ -149,7 +197,16 @@ def run_case(case, variant):
     else:
         async def aprog():
             try:
-                r = await pool.request(method, url, headers=list(req_headers), content=body, extensions=dict(ext))
+                if resend:
+                    await pre_pool.request(method, url, headers=list(req_headers), content=body, extensions=dict(ext))
+                    await pre_pool.aclose()
+                    r = await pool.handle_async_request(captured[0])
+                    try:
+                        await r.aread()
+                    finally:
+                        await r.aclose()
+                else:
+                    r = await pool.request(method, url, headers=list(req_headers), content=body, extensions=dict(ext))
                 result.append(("ok", r.status, r.content))
             except Exception as e:
                 result.append(("exc", e))
@@ -351,7 +408,7 @@ def check(tier="quick", seed=0, workers=None, only=None):
     cov = {"evaluations": total, "distinct_nontrivial": len(classes), "exhaustive": True,
            "rule": ("full product proxy kind x credentials x proxy headers (incl. case-insensitive collisions) x origin x request headers x body x proxy reply "
                     "(10 CONNECT replies; SOCKS method x auth x 11 connect replies), sync and async, pool built as ConnectionPool(proxy=Proxy(...)) and as an HTTPProxy / SOCKSProxy object; IP-literal origins (IPv6 with and without port, IPv4); "
-                    "every case whose reply lets the exchange proceed (and one refusal) again with the sni_hostname and the target request extension; distinct class = (kind, creds?, proxy headers, scheme, request headers, body?, reply, violated?)"),
+                    "every case whose reply lets the exchange proceed (and one refusal) again with the sni_hostname and the target request extension, and with a Request object that was already sent once through another pool; distinct class = (kind, creds?, proxy headers, scheme, request headers, body?, reply, violated?)"),
            "samples": [{"case": repr(c)[:300]} for c in allc[:: max(1, len(allc) // 5)][:5]], "cases": len(allc)}
     return {"level": "exploration", "coverage": cov, "violations": viols,
             "assumptions": ["the proxy peers record every byte before and after the tunnel boundary; non-2xx CONNECT replies carry Content-Length: 0"]}
